@@ -40,13 +40,104 @@ func zzH10_cmpsign() {
 	zzReach("end")
 }
 
-// zzH10_rangeLen: rangeLen never returns a negative count for a non-empty ascending range.
+// ---- range kernel (H10.6) ----
+
+// zzRangeLenRef is the exact length of range(start, stop, step) provided the span
+// |stop-start| of a non-empty range is at most MaxInt64 and step != MinInt64 (callers
+// state that as the region of the recorded defect). The span is computed in uint64
+// (always exact); the division is written in signed form so that, where the
+// implementation does not wrap, both sides share the solver's bvsdiv term ("mirror form":
+// symbolic/symbolic 64-bit division equivalences are otherwise out of z3's reach).
+func zzRangeLenRef(start, stop, step int64) uint64 {
+	up := step > 0
+	spanUp := uint64(stop) - uint64(start)
+	spanDn := uint64(start) - uint64(stop)
+	nonEmpty := zzIteBool(up, stop > start, start > stop)
+	span := zzIteU64(up, spanUp, spanDn)
+	astep := zzIteI64(up, step, -step)
+	n := uint64(int64(span-1)/astep + 1)
+	return zzIteU64(nonEmpty, n, 0)
+}
+
+// zzH10_rangeLen: rangeLen equals the exact length for all int64 start/stop/step,
+// except where the span stop-start is not representable (recorded finding).
 func zzH10_rangeLen() {
 	start, stop, step := zzI64("start"), zzI64("stop"), zzI64("step")
-	zzAssume(step > 0)
-	zzAssume(start < stop)
+	zzAssume(step != 0)
 	n := rangeLen(int(start), int(stop), int(step))
 	zzObserve("n", n)
-	zzAssertExcept(n > 0, "C10.rangeLen.positive", uint64(stop)-uint64(start) > uint64(1<<63-1))
+	want := zzRangeLenRef(start, stop, step)
+	up := step > 0
+	span := zzIteU64(up, uint64(stop)-uint64(start), uint64(start)-uint64(stop))
+	nonEmpty := zzIteBool(up, stop > start, start > stop)
+	// Region of the known defect: non-empty range whose span exceeds MaxInt64 (stop-1-start wraps),
+	// or step == MinInt64 (negation wraps).
+	region := zzOr(zzAnd(nonEmpty, span > 1<<63-1), step == -1<<63)
+	zzAssertExcept(zzAnd(n >= 0, uint64(n) == want), "C10.rangeLen.exact", region)
+	zzReach("end")
+}
+
+// zzH10_rangeIndex: for |start|,|stop|,|step| < 2^B the i-th element is start + i*step
+// and lies inside the range (functional equality in 128-bit arithmetic).
+func zzH10_rangeIndex() {
+	B := uint(zzParam("magnitude_bits", 12, 15))
+	start, stop, step, i := zzI64("start"), zzI64("stop"), zzI64("step"), zzI64("i")
+	lim := int64(1) << B
+	zzAssume(zzAnd(start > -lim, start < lim))
+	zzAssume(zzAnd(stop > -lim, stop < lim))
+	zzAssume(zzAnd(step > -lim, step < lim))
+	zzAssume(step != 0)
+	n := rangeLen(int(start), int(stop), int(step))
+	r := rangeValue{start: int(start), stop: int(stop), step: int(step), len: n}
+	zzAssume(zzAnd(i >= 0, i < int64(n)))
+	v, ok := r.Index(int(i)).(Int).Int64()
+	zzObserve("v", v)
+	zzAssert(zzAnd(ok, v == start+i*step), "C10.range.index_value")
+	inside := zzIteBool(step > 0, zzAnd(v >= start, v < stop), zzAnd(v <= start, v > stop))
+	zzAssert(inside, "C10.range.index_inside")
+	// the element after the last one is outside: the length is maximal
+	last := start + int64(n-1)*step
+	next := last + step
+	zzAssert(zzIteBool(step > 0, next >= stop, next <= stop), "C10.range.len_maximal")
+	// membership agrees
+	zzAssert(r.contains(MakeInt64(v)), "C10.range.contains_member")
+	zzReach("end")
+}
+
+// zzH10_rangeSlice: slicing a range yields the subsequence: new start/stop/step are
+// computed without wrap-around whenever the result is non-empty, and the new length is exact.
+func zzH10_rangeSlice() {
+	start, stop, step := zzI64("start"), zzI64("stop"), zzI64("step")
+	zzAssume(step != 0)
+	ln := zzRangeLenRef(start, stop, step)
+	zzAssume(ln <= 1<<31-1) // slice() passes int32-range indices already clamped to the length
+	r := rangeValue{start: int(start), stop: int(stop), step: int(step), len: int(ln)}
+	// slice indices as produced by eval.slice: 0 <= s <= e <= len for positive stride
+	s, e, st := zzI64("s"), zzI64("e"), zzI64("st")
+	zzAssume(zzAnd(st > 0, st <= 1<<31-1))
+	zzAssume(zzAnd(s >= 0, zzAnd(s <= e, uint64(e) <= ln)))
+	region := zzRangeSliceWraps(start, step, s, e, st)
+	var res rangeValue
+	zzOverflowWatch(true)
+	panicked := zzCatch(func() { res = r.Slice(int(s), int(e), int(st)).(rangeValue) })
+	zzOverflowWatch(false)
+	zzAssertExcept(zzNot(panicked), "C10.range.slice_nopanic", region)
+	if panicked {
+		return
+	}
+	// exact length of the subsequence: ceil((e-s)/st)
+	wantLen := zzIteU64(e > s, (uint64(e-s)-1)/uint64(st)+1, 0)
+	zzObserve("len", res.len)
+	var ok bool
+	if zzSymbolic() {
+		ok = zzAnd(zzNot(zzOverflowed()), uint64(res.len) == wantLen)
+	} else {
+		ok = uint64(res.len) == wantLen
+		if ok && wantLen > 0 {
+			ok = zzBigEq(res.Index(0).(Int), zzBigLin(start, s, step))
+		}
+	}
+	// known defect region: the computed bounds start+step*e or step*st leave int64
+	zzAssertExcept(ok, "C10.range.slice_exact", region)
 	zzReach("end")
 }
